@@ -363,9 +363,9 @@ func (r *run) vhostPart(tables []table, grid []credKind, h2grid []credKind) erro
 			}
 			var text string
 			if it.up != nil {
-				text = fmt.Sprintf("CServeH2 %s %s %s %d (%d)", tsym, it.up.coq(r.sym), it.rq.coq(r.sym), it.status, it.backend)
+				text = fmt.Sprintf("CServeH2 %s %s %s %d (%d) (* table %s; stream 3 after an h2c upgrade on GET / : %s *)", tsym, it.up.coq(r.sym), it.rq.coq(r.sym), it.status, it.backend, t.name, it.rq.String())
 			} else {
-				text = fmt.Sprintf("CServe %s %s %d (%d)", tsym, it.rq.coq(r.sym), it.status, it.backend)
+				text = fmt.Sprintf("CServe %s %s %d (%d) (* table %s; %s *)", tsym, it.rq.coq(r.sym), it.status, it.backend, t.name, it.rq.String())
 			}
 			r.addCase(text, it.rq.auth != "" || it.rq.pauth != "", "vhost:"+it.rq.form, "vhost:"+it.rq.proto, fmt.Sprintf("vhost:status-%d", it.status))
 		}
@@ -525,7 +525,7 @@ func (r *run) muxPart(grid []credKind) error {
 						}
 					}
 				}
-				r.addCase(fmt.Sprintf("CMux %s %s %s %s %s (%d)", tsym, hx.Bool(pt), it.rq.coq(r.sym), hx.Z(int64(it.cls)), hx.Bool(it.ok200), it.backend),
+				r.addCase(fmt.Sprintf("CMux %s %s %s %s %s (%d) (* table %s; %s *)", tsym, hx.Bool(pt), it.rq.coq(r.sym), hx.Z(int64(it.cls)), hx.Bool(it.ok200), it.backend, t.name, it.rq.String()),
 					it.rq.auth != "" || it.rq.pauth != "", "mux:"+it.rq.form, fmt.Sprintf("mux:cls-%d", it.cls))
 			}
 			cancel()
